@@ -36,6 +36,11 @@ CellSat(cell, cnd) ==
       [] cnd[1] = "list" -> PyIn(cell, cnd[2])
       [] cnd[1] = "re"   -> IsStr(cell) /\ Pay(cell) \in ReMatch[cnd[2]]
 
+\* Python truthiness of a cell value: None, False, 0, 0.0 and '' are false; everything else (NaN included) is true
+Truthy(v) == CASE IsNone(v) -> FALSE
+               [] IsFinNum(v) -> ~RatEq(Rat(v), <<0, 1>>)
+               [] IsStr(v) -> Pay(v) # ""
+               [] OTHER -> TRUE
 \* named predicates on named columns (the driver holds the matching Python lambdas)
 Gt(u, v) == (IsFinNum(u) /\ IsFinNum(v) /\ RatLt(Rat(v), Rat(u))) \/ (u = VInf(1) /\ IsFinNum(v))
 PredSat(row, name) ==
@@ -45,6 +50,8 @@ PredSat(row, name) ==
       [] name = "a_num_gt_1"   -> Gt(row.a, VInt(1))                    \* lambda a: is_num(a) and a > 1  (NaN > 1 is False)
       [] name = "always"       -> TRUE                                 \* lambda: True
       [] name = "never"        -> FALSE                                \* lambda a: False
+      [] name = "a_truthy"     -> Truthy(row.a)                        \* lambda a: a         (the returned value itself decides)
+      [] name = "b_strlen"     -> IsStr(row.b) /\ Pay(row.b) # ""       \* lambda b: len(b) if isinstance(b, str) else 0   (an int, not a bool)
       [] name = "a_is_b"       -> PyIs(row.a, row.b) /\ (IsNone(row.a) \/ IsNaN(row.a)) \* lambda a, b: a is b and (a is None or is_nan(a))
 
 \* a condition is a single predicate or a conjunction of column conditions
